@@ -12,6 +12,7 @@ use oracle::Big;
 use twofloat::TwoFloat;
 
 fn call(ctx: &mut Ctx, what: &str, x: Dd, f: fn(TwoFloat) -> TwoFloat) -> Option<Dd> {
+    decoy_call(ctx, x, f);
     match guard(|| f(x.tf())) {
         Ok(t) => Some(Dd::of(t)),
         Err(m) => {
@@ -27,6 +28,9 @@ fn call(ctx: &mut Ctx, what: &str, x: Dd, f: fn(TwoFloat) -> TwoFloat) -> Option
 fn trig_arg(ctx: &mut Ctx) -> Dd {
     if let Some(c) = maybe_constant(ctx, 25, false) {
         return c;
+    }
+    if ctx.chance(1, 24) {
+        return end_point_sym(ctx, 1048576.0);
     }
     let c = ctx.weighted(&[4, 4, 6, 2, 1]);
     let x = match c {
@@ -211,6 +215,9 @@ fn unit_arg(ctx: &mut Ctx) -> Dd {
     if let Some(c) = maybe_constant(ctx, 25, false) {
         return c;
     }
+    if ctx.chance(1, 24) {
+        return end_point_sym(ctx, 1.0);
+    }
     let c = ctx.weighted(&[4, 4, 3, 3, 2, 1]);
     let x = match c {
         0 => {
@@ -346,6 +353,7 @@ fn c17_atan(ctx: &mut Ctx) {
             Dd::new(if ctx.flag() { -0.0 } else { 0.0 }, 0.0)
         }
     };
+    let x = if ctx.chance(1, 24) { end_point_sym(ctx, 1152921504606846976.0) } else { x };
     let x = forced_or(ctx, x);
     x.key(ctx);
     note_dd(ctx, "x", x);
@@ -531,6 +539,7 @@ fn c18_forward(ctx: &mut Ctx) {
         }
     };
     let x = if x.big().abs() > Big::from_u64(600) { Dd::new(600.0 * x.hi.signum(), 0.0) } else { x };
+    let x = if ctx.chance(1, 24) { end_point_sym(ctx, 600.0) } else { x };
     let x = forced_or(ctx, x);
     x.key(ctx);
     note_dd(ctx, "x", x);
@@ -601,6 +610,13 @@ fn c18_inverse(ctx: &mut Ctx) {
 fn c18_inverse_arg(ctx: &mut Ctx, which: u64) -> Dd {
     if let Some(c) = maybe_constant(ctx, 30, false) {
         return c;
+    }
+    if ctx.chance(1, 24) {
+        return match which {
+            0 => end_point_sym(ctx, 1152921504606846976.0),
+            1 => end_point(ctx, 1152921504606846976.0, -1),
+            _ => end_point_sym(ctx, 1.0 - 0.0009765625),
+        };
     }
     match which {
         0 => {
